@@ -1476,3 +1476,68 @@ def desugar_first_match(tree):
             collect(fn, names)
             fn.body = rewrite(fn.body, names)
     return n_done
+
+
+# ------------------------------------------------------------------ N4
+def expand_constant_kwargs(tree):
+    """N4: `f(a, **TABLE)` where TABLE is a module-level name bound once to
+    `dict(k=v, ...)` or `{'k': v, ...}` (text keys) and used nowhere else
+    than as `**TABLE` is the call with those keyword arguments written out.
+    Rules that read the options a constructor accepts from the keywords of
+    its parse_params call see the same call either way."""
+    cands = {}
+    for st in tree.body:
+        if isinstance(st, ast.Assign) and len(st.targets) == 1 and \
+                isinstance(st.targets[0], ast.Name):
+            v = st.value
+            kws = None
+            if isinstance(v, ast.Call) and isinstance(v.func, ast.Name) and \
+                    v.func.id == 'dict' and not v.args and v.keywords and \
+                    all(k.arg is not None for k in v.keywords):
+                kws = [(k.arg, k.value) for k in v.keywords]
+            elif isinstance(v, ast.Dict) and v.keys and all(
+                    isinstance(k, ast.Constant) and isinstance(k.value, str)
+                    and k.value.isidentifier() for k in v.keys):
+                kws = [(k.value, x) for k, x in zip(v.keys, v.values)]
+            if kws is not None:
+                if st.targets[0].id in cands:
+                    cands[st.targets[0].id] = None
+                else:
+                    cands[st.targets[0].id] = (st, kws)
+    cands = {k: v for k, v in cands.items() if v}
+    if not cands:
+        return 0
+    star_uses = {}
+    other = set()
+    for n in ast.walk(tree):
+        if isinstance(n, ast.Call):
+            for k in n.keywords:
+                if k.arg is None and isinstance(k.value, ast.Name) and \
+                        k.value.id in cands:
+                    star_uses.setdefault(k.value.id, []).append((n, k))
+                    k.value._dt_star = True
+    for n in ast.walk(tree):
+        if isinstance(n, ast.Name) and n.id in cands and \
+                not getattr(n, '_dt_star', False):
+            st, _ = cands[n.id]
+            if n is not st.targets[0]:
+                other.add(n.id)
+    done = 0
+    for name, uses in star_uses.items():
+        if name in other:
+            continue
+        _, kws = cands[name]
+        for call, k in uses:
+            i = call.keywords.index(k)
+            new = []
+            for arg, val in kws:
+                kw = ast.keyword(arg=arg, value=copy.deepcopy(val))
+                ast.copy_location(kw, k)
+                for x in ast.walk(kw.value):
+                    ast.copy_location(x, k.value)
+                new.append(kw)
+            call.keywords[i:i + 1] = new
+            done += 1
+    if done:
+        ast.fix_missing_locations(tree)
+    return done
